@@ -14,14 +14,29 @@ def spec_scalar(it, tag, kind):
     d = it.digits[(tag, kind)]
     return sum((v.scale(w) for v, w in zip(d["vars"], d["weights"])), ZERO)
 
-def g_harness(rep, cfg, modpath, name, fn, body, bounds):
+def force_backend(it, which):
+    """run-time dispatch: preset the cpufeatures storage bytes so that get_selected_backend() returns `which`"""
+    import re as _re
+    n = 0
+    for g in list(it.mod.globals):
+        if "STORAGE" in g and "cpuid" in g:
+            r = it.global_region(g)
+            it.store(Ptr(r.r, 0), Poly.const(1 if which in g else 0), 1); n += 1
+    if n == 0: raise ir.Unsupported("no cpufeatures storage found: this configuration has no run-time dispatch")
+
+def g_harness(rep, cfg, modpath, name, fn, body, bounds, backend=None, replay_kind=None, replay_points=1):
     """body(it) -> (result G, expected G, notes) ; equality of linear forms decided as QF_LIA over the digits"""
     t0 = time.time()
-    rec = dict(harness="%s/%s" % (cfg, name), config=cfg, function=fn, goals=[], bounds=bounds)
+    rec = dict(harness="%s/%s" % (cfg + ("+" + backend if backend else ""), name), config=cfg, function=fn, goals=[], bounds=bounds)
     try:
         it = GSym(module(modpath))
+        if backend: force_backend(it, backend)
         res, exp, notes = body(it)
         rec["ir_steps"] = it.steps; rec["intercepted"] = it.kcalls
+        if backend:
+            vec = [c for c in it.calls if "vector" in c and "scalar_mul" in c]
+            rec["vector_backend_functions"] = len(vec)
+            notes = list(notes) + [("the %s vector implementation was the one executed" % backend, bool(vec))]
         rec["table_lemmas"] = sorted(set(l[0] for l in it.lemmas if l[1]))
         rec["recodings"] = sorted("%s:%s" % k for k in it.digits)
         diff = res - exp
@@ -32,10 +47,16 @@ def g_harness(rep, cfg, modpath, name, fn, body, bounds):
             d = diff.c.get(b, ZERO)
             v, model, dt, info = pr.check(Cond("cmp", "ne", d, ZERO), timeout_s=60, split=False)
             rec["goals"].append(dict(goal="coefficient of %s: result == expected" % b, verdict=v, solver_s=round(dt, 3), kind="polynomial identity mod p" if info.get("solver_calls", 0) == 0 else "QF_LIA", **info))
-            if v == "sat": status = "violation"; rec["why"] = "coefficient of %s differs: %r" % (b, d); rec["model"] = model
+            if v == "sat":
+                status = "violation"; rec["why"] = "coefficient of %s differs: %s" % (b, str(d)[:300]); rec["model"] = {k: model[k] for k in sorted(model)[:80]} if model else None
+                if replay_kind and "replay" not in rec:
+                    ok, det = native_replay(cfg, replay_kind, model or {}, dict(it.digits), replay_points)
+                    rec["replay"] = det; rec["reproduced"] = ok
             elif v != "unsat" and status == "ok": status = "inconclusive"; rec["why"] = "solver verdict " + v
         for n in notes: rec["goals"].append(dict(goal=n[0], verdict="unsat" if n[1] else "sat", solver_s=0.0, cases=1, solver_calls=0, kind="structural"))
         if any(not n[1] for n in notes): status = "violation"; rec["why"] = "structural condition failed: %s" % [n[0] for n in notes if not n[1]]
+        elif status == "violation" and rec.get("reproduced") is False:
+            status = "inconclusive"; rec["why"] = "digit-level counterexample not reproduced natively (%s): %s" % (rec["replay"], rec["why"][:200])
         rec["status"] = status
     except (TableLemmaFailed, DigitOutOfRange) as e:
         rec["status"] = "violation"; rec["why"] = "%s: %s" % (type(e).__name__, e)
@@ -46,6 +67,173 @@ def g_harness(rep, cfg, modpath, name, fn, body, bounds):
     rec["wall_s"] = round(time.time() - t0, 3)
     rep.add(**rec); rep.functions.add(fn); rep.configs.add(cfg)
     return rec
+
+def g_paths_harness(rep, cfg, modpath, name, fn, body, bounds, backend=None, window=None, max_paths=600, replay_kind=None, replay_points=1):
+    """variable-time algorithms: every outcome of every data-dependent two-way branch (the scan for the first non-zero digit)
+    is a separate path (re-executed from the start under the recorded decisions); three-way matches on a digit's sign are
+    executed arm by arm and merged at their join point.  Each path's result is compared with the specification under
+    the path condition."""
+    from llsym.lsym import c_not
+    t0 = time.time()
+    label = "%s/%s" % (cfg + ("+" + backend if backend else ""), name)
+    rec = dict(harness=label, config=cfg, function=fn, goals=[], bounds=bounds, paths=0)
+    status = "ok"
+    try:
+        mod = module(modpath)
+        decisions = []; npaths = 0; merges = 0; general = 0; steps = 0
+        while True:
+            npaths += 1
+            if npaths > max_paths: raise ir.Unsupported("more than %d paths" % max_paths)
+            it = GSym(mod)
+            if backend: force_backend(it, backend)
+            if window is not None: it.naf_window = set(window)
+            used = list(decisions); state = dict(i=0)
+            def brancher(it_, f_, lab, c, ins):
+                i = state["i"]; state["i"] += 1
+                if i >= len(used): used.append(0)
+                v = used[i]
+                cc = c if v else c_not(c)
+                it_.ctx.assume.append(cc)
+                # a decided (dis)equality with zero of a single digit fixes that digit for the rest of the path
+                if c.k == "cmp" and c.a[0] in ("ne", "eq") and c.a[2].is_zero():
+                    sv = it_._single_var(it_.ctx.resolve(c.a[1]))
+                    if sv is not None and sv[2] == 0 and ((c.a[0] == "ne") != bool(v)): it_.ctx.bounds[sv[0]] = (0, 0)
+                return ins[3] if v else ins[4]
+            it.allow_symbolic_branch = brancher
+            res, exp, notes = body(it)
+            merges += it.merges; general += getattr(it, "general_merges", 0); steps += it.steps
+            diff = res - exp
+            pr = smt.Problem(it.ctx)
+            for b in sorted(set(res.c) | set(exp.c)):
+                d = diff.c.get(b, ZERO)
+                v, model, dt, info = pr.check(Cond("cmp", "ne", d, ZERO), timeout_s=60, split=False)
+                if v != "unsat" or npaths <= 2:
+                    rec["goals"].append(dict(goal="path %d (decisions %s): coefficient of %s: result == expected" % (npaths, "".join(map(str, used))[-24:], b), verdict=v, solver_s=round(dt, 3), kind="QF_LIA", **info))
+                if v == "sat" and status != "violation":
+                    status = "violation"; rec["why"] = "path %d: coefficient of %s differs: %r" % (npaths, b, str(d)[:300]); rec["model"] = {k: model[k] for k in sorted(model)[:60]} if model else None
+                    rec["_digits"] = dict(it.digits); rec["_model"] = model
+                elif v != "unsat" and status == "ok": status = "inconclusive"; rec["why"] = "solver verdict " + v
+            for n in notes:
+                if not n[1]: status = "violation"; rec["why"] = "structural condition failed: " + n[0]
+            rec.setdefault("intercepted", it.kcalls); rec["table_lemmas"] = sorted(set(l[0] for l in it.lemmas if l[1]))[:6]
+            vec_ = [c for c in it.calls if "vector" in c and "scalar_mul" in c]
+            if backend in ("avx2", "avx512") and not vec_:
+                status = "inconclusive"; rec["why"] = "forced backend %s but the vector implementation was not executed" % backend
+            if backend == "serial" and vec_:
+                status = "inconclusive"; rec["why"] = "forced the serial implementation but vector code was executed"
+            d = used[:]
+            while d and d[-1] == 1: d.pop()
+            if not d or status == "violation": break
+            d[-1] = 1; decisions = d
+        if status == "violation" and "_digits" in rec and replay_kind:
+            ok, det = native_replay(cfg, replay_kind, rec.pop("_model") or {}, rec.pop("_digits"), replay_points)
+            rec["replay"] = det
+            if ok is True: rec["reproduced"] = True
+            elif ok is False: status = "inconclusive"; rec["why"] = "digit-level counterexample (%s) not reproduced natively: %s" % (rec.get("why", "")[:200], det)
+            else: rec["reproduced"] = None; rec["why"] = rec.get("why", "") + " | native replay unavailable: " + str(det)
+        rec.pop("_digits", None); rec.pop("_model", None)
+        rec["paths"] = npaths; rec["arm_merges"] = merges; rec["general_merges"] = general; rec["ir_steps"] = steps
+        rec["goals"].append(dict(goal="all %d paths: result == expected for every base point (%d three-way digit matches merged)" % (npaths, merges), verdict="unsat" if status == "ok" else ("sat" if status == "violation" else "unknown"), solver_s=0.0, cases=npaths, solver_calls=0, kind="summary"))
+        rec["status"] = status
+    except (TableLemmaFailed, DigitOutOfRange) as e:
+        rec["status"] = "violation"; rec["why"] = "%s: %s" % (type(e).__name__, e)
+    except ir.Unsupported as e:
+        rec["status"] = "inconclusive"; rec["why"] = "unsupported IR: " + str(e)[:500]
+    except PanicReached as e:
+        rec["status"] = "violation"; rec["why"] = "panic reached: " + str(e)
+    rec["wall_s"] = round(time.time() - t0, 3)
+    rep.add(**rec); rep.functions.add(fn); rep.configs.add(cfg)
+    return rec
+
+def compress_py(pt):
+    from llsym import fconst
+    x, y = pt
+    return (y | ((x & 1) << 255)).to_bytes(32, "little")
+
+def native_replay(cfg, kind, model, digits, npoints, has_base=False):
+    """layer-G counterexamples are digit vectors; a concrete input for the real code is searched among the scalars they denote
+    (and a few structured ones) with fixed torsion-free points, the result of the natively built real function is compared
+    with sum s_i P_i computed by the specification's affine arithmetic.  Returns (reproduced, detail)."""
+    from vp import native
+    from llsym import fconst
+    import random
+    Lq = fconst.L
+    Bpt = (fconst.BX, fconst.BY)
+    mults = [3, 5, 7, 11, 13][:max(npoints, 1)]
+    pts = [fconst.ed_mul(m, Bpt) for m in mults]
+    tags = sorted(set(t for (t, k) in digits))
+    def scal_from_model(t):
+        d = [dd for (tt, k), dd in digits.items() if tt == t][0]
+        return sum((model.get(repr(v).strip(), model.get(list(v.vars())[0], 0) if v.vars() else 0) if not v.is_const() else v.cval()) * w for v, w in zip(d["vars"], d["weights"]))
+    cands = []
+    try:
+        base = [scal_from_model(t) for t in tags]
+        if all(0 <= x < (1 << 255) for x in base): cands.append(base)
+        cands.append([x % Lq for x in base])
+    except Exception: pass
+    rnd = random.Random(7)
+    specials = [(1 << 255) - 1, (1 << 255) - 19, (1 << 254) + 1, Lq - 1, Lq + 1, (1 << 253) + 5, (1 << 252) - 1, 1, 0, 0x5555555555555555555555555555555555555555555555555555555555555555 >> 1]
+    for sp in specials: cands.append([sp] * len(tags))
+    for _ in range(6): cands.append([rnd.randrange(1 << 255) for _ in tags])
+    calls = []; exps = []
+    for cv in cands:
+        sb = [int(x).to_bytes(32, "little") for x in cv]
+        if kind == "vartime_double":     # tags a, b ; point A
+            a_, b_ = cv[tags.index("a")], cv[tags.index("b")]
+            calls.append(("g_vartime_double", [int(a_).to_bytes(32, "little"), compress_py(pts[0]), int(b_).to_bytes(32, "little")]))
+            exps.append(fconst.ed_add(fconst.ed_mul(a_ % Lq, pts[0]), fconst.ed_mul(b_ % Lq, Bpt)))
+        elif kind in ("multiscalar", "vartime_multiscalar"):
+            order = sorted(tags, key=lambda t: int(t[1:]))
+            vs = [cv[tags.index(t)] for t in order]
+            calls.append(("g_" + kind, [b"".join(int(x).to_bytes(32, "little") for x in vs), b"".join(compress_py(pts[i]) for i in range(len(vs)))]))
+            acc = (0, 1)
+            for x, ptt in zip(vs, pts): acc = fconst.ed_add(acc, fconst.ed_mul(x % Lq, ptt))
+            exps.append(acc)
+        elif kind == "ed_mul":
+            calls.append(("g_ed_mul", [compress_py(pts[0]), int(cv[0]).to_bytes(32, "little")])); exps.append(fconst.ed_mul(cv[0] % Lq, pts[0]))
+        else: return None, "no native replay for " + kind
+    try: outs = native.run(cfg, calls)
+    except Exception as e: return None, "native runner failed: " + str(e)[:200]
+    for cv, (fn, args), exp, got in zip(cands, calls, exps, outs):
+        if isinstance(got, tuple): return True, dict(native_call=fn, args=[a.hex() for a in args], native_result="PANIC " + got[1][:200])
+        if got is None: return None, "native runner does not know " + fn
+        if got != compress_py(exp): return True, dict(native_call=fn, args=[a.hex() for a in args], native_result=got.hex(), specification=compress_py(exp).hex())
+    return False, "none of %d concrete candidate inputs reproduces the digit-level counterexample on the natively built code" % len(cands)
+
+def spec_naf(it, tag, w):
+    d = it.digits[(tag, "naf%d" % w)]
+    return sum((v.scale(wt) for v, wt in zip(d["vars"], d["weights"])), ZERO)
+
+def vartime_harnesses(rep, cfg, modpath, tier, backend=None):
+    T = []
+    win_q = [0, 1, 2, 3, 252, 253, 254, 255]
+    windows = [("NAF digits arbitrary in positions 0-3 and 252-255, zero elsewhere", win_q)] if tier == "quick" else \
+              [("NAF digits arbitrary in positions 0-3 and 252-255, zero elsewhere", win_q), ("NAF digits arbitrary in positions 100-131", list(range(100, 132))), ("all 256 NAF digit positions arbitrary", None)]
+    pre = "vector " if backend in ("avx2", "avx512") else "serial "
+    for wname, win in windows:
+        def b_vdb(it):
+            A = it.point("A"); a = it.scalar("a"); b = it.scalar("b"); out = it.new_region("out", 4 * it.fs)
+            it.call("vp_g_vartime_double_base" if not backend else "vp_g_vartime_double_pub", [out, a, A, b])
+            wb = 8 if ("b", "naf8") in it.digits else 5
+            return it.get(out), G.base("A").scale(spec_naf(it, "a", 5)) + G.base("B").scale(spec_naf(it, "b", wb)), []
+        T.append(lambda b_vdb=b_vdb, wname=wname, win=win: g_paths_harness(rep, cfg, modpath, pre + "vartime_double_base::mul [%s]" % wname, "vartime_double_scalar_mul_basepoint", b_vdb,
+                 "symbolic point A; a, b: " + wname, backend=backend, window=win, replay_kind="vartime_double"))
+        def mk_vs(n):
+            def b(it):
+                out = it.new_region("out", 4 * it.fs); sc = it.new_region("scalars", 32 * n); pts = it.new_region("points", 4 * it.fs * n)
+                for i in range(n):
+                    so = gsym.ScalarObj("s%d" % i)
+                    for k in range(32): it.regions[sc.r].b[32 * i + k] = (so, k, 32)
+                    it.put(Ptr(pts.r, 4 * it.fs * i), G.base("P%d" % i), 4 * it.fs)
+                it.call("vp_g_vartime_multiscalar_mul", [out, sc, Poly.const(n), pts, Poly.const(n)])
+                exp = G()
+                for i in range(n): exp = exp + G.base("P%d" % i).scale(spec_naf(it, "s%d" % i, 5))
+                return it.get(out), exp, []
+            return b
+        for n in ((2,) if tier == "quick" else (1, 2, 3)):
+            T.append(lambda n=n, wname=wname, win=win: g_paths_harness(rep, cfg, modpath, pre + "vartime Straus n=%d (EdwardsPoint::vartime_multiscalar_mul) [%s]" % (n, wname), "vartime_multiscalar_mul", mk_vs(n),
+                     "symbolic points; scalars: " + wname, backend=backend, window=win, replay_kind="vartime_multiscalar", replay_points=n))
+    return T
 
 def harnesses(rep, cfg, modpath, tier):
     T = []
@@ -96,6 +284,33 @@ def harnesses(rep, cfg, modpath, tier):
     H("mul_by_cofactor", "vp_g_mul_by_cofactor", b_cof, bounds="symbolic point")
     return T
 
+def vector_harnesses(rep, cfg, modpath, tier, backend):
+    """the vector (AVX2 / IFMA) copies of the algorithms, reached through the public dispatching API"""
+    T = []
+    def H(name, fn, body, bounds="all digit vectors in the recoding's range (all scalars); symbolic base points"):
+        T.append(lambda: g_harness(rep, cfg, modpath, name, fn, body, bounds, backend=backend))
+    def b_mul(it):
+        P = it.point("P"); s = it.scalar("s"); out = it.new_region("out", 4 * it.fs)
+        it.call("vp_g_ed_mul", [out, P, s])
+        return it.get(out), G.base("P").scale(spec_scalar(it, "s", "r16")), []
+    T.append(lambda: g_harness(rep, cfg, modpath, "vector variable_base::mul (EdwardsPoint * Scalar)", "vp_g_ed_mul", b_mul, "all radix-16 digit vectors; symbolic point", backend=backend, replay_kind="ed_mul"))
+    def mk_ms(n):
+        def b(it):
+            out = it.new_region("out", 4 * it.fs)
+            sc = it.new_region("scalars", 32 * max(n, 1)); pts = it.new_region("points", 4 * it.fs * max(n, 1))
+            exp = G()
+            for i in range(n):
+                so = gsym.ScalarObj("s%d" % i)
+                for k in range(32): it.regions[sc.r].b[32 * i + k] = (so, k, 32)
+                it.put(Ptr(pts.r, 4 * it.fs * i), G.base("P%d" % i), 4 * it.fs)
+            it.call("vp_g_multiscalar_mul", [out, sc, Poly.const(n), pts, Poly.const(n)])
+            for i in range(n): exp = exp + G.base("P%d" % i).scale(spec_scalar(it, "s%d" % i, "r16"))
+            return it.get(out), exp, []
+        return b
+    for n in ((1, 2) if tier == "quick" else (1, 2, 3)):
+        T.append(lambda n=n: g_harness(rep, cfg, modpath, "vector Straus::multiscalar_mul n=%d (EdwardsPoint::multiscalar_mul)" % n, "vp_g_multiscalar_mul", mk_ms(n), "all radix-16 digit vectors; symbolic points", backend=backend, replay_kind="multiscalar", replay_points=n))
+    return T
+
 KANI = {
  "c04_as_radix_16_certificate": dict(function="Scalar::as_radix_16", bounds="all 2^255 scalars (bytes[31] <= 127); unwind 65", what="digits in [-8,8) (last <= 8) and carry certificate => sum d_i 16^i == s"),
  "c04_as_radix_2w_5_certificate": dict(function="Scalar::as_radix_2w(5)", bounds="all 2^255 scalars; unwind 66", what="digit ranges and carry certificate radix 32"),
@@ -124,6 +339,12 @@ def run(tier, seed):
     build.ir_many([dict(config=c, flavour="O0") for c in cfgs])
     tasks = []
     for cfg in cfgs: tasks += harnesses(rep, cfg, build.ir(cfg, "O0"), tier)
+    tasks += vartime_harnesses(rep, "serial64", build.ir("serial64", "O0"), tier)
+    tasks += vector_harnesses(rep, "simd", build.ir("simd", "O0"), tier, "avx2")
+    tasks += vartime_harnesses(rep, "simd", build.ir("simd", "O0"), tier, backend="avx2")
+    if tier != "quick":
+        try: tasks += vector_harnesses(rep, "avx512", build.ir("avx512", "O0"), tier, "avx512")
+        except build.BuildError as e: rep.add(harness="avx512/build", config="avx512", function="build", status="inconclusive", why=str(e)[-400:], goals=[], wall_s=0)
     tasks.append(lambda: kani_part(rep, tier))
     run_tasks(tasks, rep)
     return rep
